@@ -268,8 +268,16 @@ def drop_statements(text, prefixes, log, where):
             if idx < 0:
                 break
             k, pd = idx, 0
+            block_stmt = re.match(r"(if|for|while|loop|match)\b", p) is not None
             while k < len(m):
                 ch = m[k]
+                if ch == "{" and pd == 0 and block_stmt:
+                    k = match_brace(m, k)
+                    rest = m[k + 1:].lstrip()
+                    if rest.startswith("else"):
+                        k += 1
+                        continue
+                    break
                 if ch in "([{":
                     pd += 1
                 elif ch in ")]}":
@@ -356,6 +364,10 @@ def extract_slice(src, masked, fn_path, start_anchor, end_anchor):
             raise ExtractError(f"slice anchor `{anchor}` in `{fn_path}`: expected exactly one match, found {len(pos)}")
         return pos[0]
     a = once(start_anchor)
-    b = once(end_anchor, a) + len(end_anchor)
+    # the end anchor is its first occurrence at or after the start anchor
+    bpos = [mm.start() for mm in re.finditer(re.escape(end_anchor), body) if mm.start() >= a]
+    if not bpos:
+        raise ExtractError(f"slice end anchor `{end_anchor}` in `{fn_path}` not found after the start anchor")
+    b = bpos[0] + len(end_anchor)
     a_line = body.rfind("\n", 0, a) + 1
     return s + a_line, s + b
